@@ -61,3 +61,17 @@ def show(r):
     if t == "EndTag":
         return "</%s>" % dec(r["n"])
     return "%s(%r)" % (t, dec(r["d"]))
+
+
+def consume(it):
+    """A downstream consumer that keeps what it is handed (a copy made at receipt) and then writes on the token it was handed, the
+    way later filters do (adding rel= / class= to the attribute mapping).  A filter's output is a function of its input stream:
+    what the consumer does with one token must not show up in any other token."""
+    import copy
+    out = []
+    for t in it:
+        out.append(copy.deepcopy(t))
+        d = t.get("data") if isinstance(t, dict) else None
+        if isinstance(d, dict) and t.get("type") in ("StartTag", "EmptyTag"):
+            d[(None, "zz-written-by-consumer")] = "1"
+    return out
